@@ -20,10 +20,10 @@ func (o *Obligation) smt(withModel bool) string {
 		b.WriteString("\n")
 	}
 	for _, a := range fx.assumps[:o.Prefix] {
-		b.WriteString(a)
+		b.WriteString(fx.stripMacroPatterns(a))
 		b.WriteString("\n")
 	}
-	b.WriteString("(assert (not " + o.Goal.S + "))\n(check-sat)\n")
+	b.WriteString("(assert (not " + fx.stripMacroPatterns(o.Goal.S) + "))\n(check-sat)\n")
 	if withModel {
 		if ts := fx.allGetValueTerms(); len(ts) > 0 {
 			b.WriteString("(get-value (" + strings.Join(ts, " ") + "))\n")
@@ -38,8 +38,8 @@ type solverSpec struct {
 }
 
 var solvers = []solverSpec{
-	{"z3-5.1.0", func(t int, f string) []string { return []string{"z3-new", fmt.Sprintf("-T:%d", t), f} }},
-	{"z3-4.8.12", func(t int, f string) []string { return []string{"/usr/bin/z3", fmt.Sprintf("-T:%d", t), f} }},
+	{"z3-5.1.0", func(t int, f string) []string { return []string{"z3-new", fmt.Sprintf("-T:%d", t), "smt.array.extensional=false", f} }},
+	{"z3-4.8.12", func(t int, f string) []string { return []string{"/usr/bin/z3", fmt.Sprintf("-T:%d", t), "smt.array.extensional=false", f} }},
 	{"cvc5-1.0", func(t int, f string) []string {
 		return []string{"cvc5", fmt.Sprintf("--tlimit=%d", t*1000), "--produce-models", f}
 	}},
@@ -61,9 +61,14 @@ func runSolver(ctx context.Context, s solverSpec, timeoutS int, file string) sol
 	out, _ := cmd.CombinedOutput()
 	secs := time.Since(t0).Seconds()
 	txt := string(out)
-	first := strings.TrimSpace(txt)
-	if i := strings.Index(first, "\n"); i >= 0 {
-		first = strings.TrimSpace(first[:i])
+	first := ""
+	for _, ln := range strings.Split(txt, "\n") {
+		ln = strings.TrimSpace(ln)
+		if ln == "" || strings.HasPrefix(ln, "WARNING") || strings.HasPrefix(ln, "(warning") {
+			continue
+		}
+		first = ln
+		break
 	}
 	r := solveResult{solver: s.name, out: txt, secs: secs}
 	switch first {
@@ -109,15 +114,15 @@ func discharge(o *Obligation, dir string, quickS, fullS int, agree bool) {
 		o.Verdict, o.Solver = r.verdict, r.solver
 		return
 	}
-	// stage 1: z3-new alone, short
-	r := runSolver(context.Background(), solvers[0], quickS, file)
+	// stage 1: z3-new alone, very short (most obligations are instant)
+	r := runSolver(context.Background(), solvers[0], 1, file)
 	if r.verdict == "unsat" || r.verdict == "sat" {
 		if !(agree && r.verdict == "unsat" && o.Expect == "") {
 			o.Verdict, o.Solver, o.Model = r.verdict, r.solver, r.out
 			return
 		}
 	}
-	// stage 2: everyone in parallel
+	// stage 2: everyone in parallel, first definite answer wins
 	ctx, cancel := context.WithCancel(context.Background())
 	defer cancel()
 	ch := make(chan solveResult, len(solvers))
@@ -127,9 +132,6 @@ func discharge(o *Obligation, dir string, quickS, fullS int, agree bool) {
 	var outs []string
 	nUnsat := 0
 	var firstUnsat solveResult
-	if r.verdict == "unsat" {
-		// counts as one vote (z3-new already said unsat); wait for a different solver
-	}
 	for i := 0; i < len(solvers); i++ {
 		rr := <-ch
 		outs = append(outs, fmt.Sprintf("%s: %s (%.1fs)", rr.solver, rr.verdict, rr.secs))
@@ -152,12 +154,13 @@ func discharge(o *Obligation, dir string, quickS, fullS int, agree bool) {
 		}
 	}
 	if nUnsat >= 1 {
-		// thorough tier wanted two solvers; one is still a proof — record which
+		// thorough tier wanted two solvers; one is still a proof - record which
 		o.Verdict, o.Solver = "unsat", firstUnsat.solver+"(single)"
 		return
 	}
 	o.Verdict = "unknown"
 	o.Model = strings.Join(outs, "; ")
+	_ = quickS
 }
 
 func hashStr(s string) uint32 {
@@ -182,4 +185,61 @@ func dischargeAll(obls []*Obligation, dir string, quickS, fullS int, agree bool,
 		}(o)
 	}
 	wg.Wait()
+}
+
+// stripMacroPatterns removes explicit :pattern annotations that mention a define-fun'd (merged) heap: after macro
+// expansion such a pattern contains ite and is rejected by the solvers; the solver then infers patterns itself.
+func (fx *fnExec) stripMacroPatterns(a string) string {
+	if len(fx.macros) == 0 || !strings.Contains(a, ":pattern") {
+		return a
+	}
+	var out strings.Builder
+	i := 0
+	for i < len(a) {
+		j := strings.Index(a[i:], "(! ")
+		if j < 0 {
+			out.WriteString(a[i:])
+			break
+		}
+		j += i
+		// find the matching close of this (! ... ) form
+		depth := 0
+		end := -1
+		for k := j; k < len(a); k++ {
+			if a[k] == '(' {
+				depth++
+			} else if a[k] == ')' {
+				depth--
+				if depth == 0 {
+					end = k
+					break
+				}
+			}
+		}
+		if end < 0 {
+			out.WriteString(a[i:])
+			break
+		}
+		form := a[j : end+1]
+		pi := strings.LastIndex(form, ":pattern")
+		usesMacro := false
+		if pi >= 0 {
+			for m := range fx.macros {
+				if strings.Contains(form[pi:], m+" ") || strings.Contains(form[pi:], m+")") {
+					usesMacro = true
+					break
+				}
+			}
+		}
+		out.WriteString(a[i:j])
+		if usesMacro {
+			inner := strings.TrimSpace(form[3:pi])
+			out.WriteString(fx.stripMacroPatterns(inner))
+		} else {
+			// keep the annotation, but still process nested forms inside the body
+			out.WriteString("(! " + fx.stripMacroPatterns(form[3:pi]) + form[pi:])
+		}
+		i = end + 1
+	}
+	return out.String()
 }
